@@ -105,11 +105,104 @@ func (t *tsFunc) edgeFilter(X string) func(from *ssa.BasicBlock, si int) bool {
 	return func(from *ssa.BasicBlock, si int) bool { return !pruned[[2]int{from.Index, si}] }
 }
 
+// constTripEdgeFilter refines an edge filter for a query "reach a return avoiding S": for loops that run at least once
+// (a counting loop from 0 to a positive constant, as a range over an array literal is lowered), when no iteration can
+// complete without meeting S, the only way past the loop that avoids S is the zero-trip path, which does not exist:
+// the exit edge is pruned for this query.
+func constTripEdgeFilter(fn *ssa.Function, S map[ssa.Instruction]bool, edgeOK func(*ssa.BasicBlock, int) bool) func(*ssa.BasicBlock, int) bool {
+	{
+		prunedExit := map[[2]int]bool{}
+		for _, h := range fn.Blocks {
+			if len(h.Instrs) == 0 || len(h.Succs) != 2 {
+				continue
+			}
+			ifi, ok := h.Instrs[len(h.Instrs)-1].(*ssa.If)
+			if !ok {
+				continue
+			}
+			bo, ok := ifi.Cond.(*ssa.BinOp)
+			if !ok || bo.Op != token.LSS {
+				continue
+			}
+			k, isK := constInt(bo.Y)
+			if !isK || k <= 0 {
+				continue
+			}
+			// index starts at 0: phi(-1, ...)+1 or phi(0, ...)
+			startsAtZero := false
+			switch x := bo.X.(type) {
+			case *ssa.BinOp:
+				if ph, ok := x.X.(*ssa.Phi); ok && x.Op == token.ADD && ph.Block() == h {
+					if c1, ok := constInt(x.Y); ok && c1 == 1 {
+						for i, e := range ph.Edges {
+							if c0, ok := constInt(e); ok && c0 == -1 && !h.Dominates(h.Preds[i]) {
+								startsAtZero = true
+							}
+						}
+					}
+				}
+			case *ssa.Phi:
+				if x.Block() == h {
+					for i, e := range x.Edges {
+						if c0, ok := constInt(e); ok && c0 == 0 && !h.Dominates(h.Preds[i]) {
+							startsAtZero = true
+						}
+					}
+				}
+			}
+			if !startsAtZero {
+				continue
+			}
+			// can an iteration complete (body entry -> header) avoiding S?
+			body := h.Succs[0]
+			completes := false
+			seen := map[*ssa.BasicBlock]bool{}
+			var walk func(b *ssa.BasicBlock)
+			walk = func(b *ssa.BasicBlock) {
+				if completes || seen[b] {
+					return
+				}
+				if b == h {
+					completes = true
+					return
+				}
+				seen[b] = true
+				for _, in := range b.Instrs {
+					if S[in] {
+						return
+					}
+				}
+				for si, sc := range b.Succs {
+					if edgeOK != nil && !edgeOK(b, si) {
+						continue
+					}
+					walk(sc)
+				}
+			}
+			walk(body)
+			if !completes {
+				prunedExit[[2]int{h.Index, 1}] = true
+			}
+		}
+		if len(prunedExit) > 0 {
+			prev := edgeOK
+			edgeOK = func(from *ssa.BasicBlock, si int) bool {
+				if prunedExit[[2]int{from.Index, si}] {
+					return false
+				}
+				return prev == nil || prev(from, si)
+			}
+		}
+	}
+	return edgeOK
+}
+
 // openPath: is there a success path through m that avoids every instruction in S (with edge filter)?
 func openPath(fn *ssa.Function, m ssa.Instruction, S map[ssa.Instruction]bool, edgeOK func(*ssa.BasicBlock, int) bool) *ssa.Return {
 	if S[m] {
 		return nil
 	}
+	edgeOK = constTripEdgeFilter(fn, S, edgeOK)
 	// entry -> m
 	reached := false
 	if len(fn.Blocks) > 0 && fn.Blocks[0].Instrs[0] == m {
@@ -788,6 +881,7 @@ func isUndefinedIDTest(v ssa.Value) bool {
 
 // openPathAfter: is there a path from m to a success return that avoids S?
 func openPathAfter(fn *ssa.Function, m ssa.Instruction, S map[ssa.Instruction]bool, edgeOK func(*ssa.BasicBlock, int) bool) *ssa.Return {
+	edgeOK = constTripEdgeFilter(fn, S, edgeOK)
 	var bad *ssa.Return
 	reachFrom(fn, m, edgeOK, func(in ssa.Instruction) bool {
 		if bad != nil || S[in] {
